@@ -1,14 +1,171 @@
-/- Line-protocol driver of the Names cluster (see lakefile.toml). -/
-import FfcxModel.Driver.Loop
+/- Line-protocol driver of the Names cluster (C13, C20): signatures / names / options / CLI.
 
-open Ffcx
+Strings travel either as plain atoms or as code-point lists `(u 97 98 …)` (always the latter in
+replies, so that control characters never meet the line protocol).
+
+Scalars:  (none) | (bool true) | (int -3) | (float fin <neg> (d1 d2 …) <decpt>) | (float inf <neg>)
+          | (float nan) | (str <string>) | (raw <string>)
+Points:   (points <f32:bool> ((num k) (num k) …) …rows…)  |  (repr <string>)   -- opaque repr text
+
+Commands (replies):
+  (ping)                                             pong
+  (reprscalar <scalar>) / (strscalar <scalar>)       string
+  (tuple <string>…) / (list <string>…)               string
+  (optsig (<key> <scalar>)…)                         string      _compute_option_signature
+  (compsig (<arg>…) <debug> <cflags> <soabi>)        string      _compilation_signature
+  (nprepr <points>)                                  string | (unsupported)
+  (encode (env <version> <hash>) (forms <sig>…)|(exprs (<sig> <points>)…) <tag>)   string | (unbound)
+  (request (env …) (forms|exprs …) (opts (<key> <scalar>)…) (comp (<arg>…) <debug> <cflags> <soabi>))
+  (formtag <prefix> <id>)  (integraltag <prefix> <type> <id> (<scalar>…))  (alias <kind> <prefix> <name>)
+  (factory <name> <cell>)                            string      integral factory name
+  (validident <string>)                              true|false
+  (merge (<k> <scalar>)… four lists: defaults user pwd, then (some (…)) | (none))   ((k reprstring)…)
+  (cli (<dest> <scalar>)…)                           ((k reprstring)…)  priority_options of main
+  (namespace (<dest> <scalar>)…)                     ((k reprstring)…)  parse_args(...).__dict__
+  (mainopts (user…) (pwd…) (given…))                 ((k reprstring)…)  options main compiles with
+  (sanitise <string>)                                string
+  (formatcode (block (tuple <string>…)…)…)           (string…)
+-/
+import FfcxModel.Driver.Loop
+import FfcxModel.Jit.Naming
+import FfcxModel.Cli.Options
+import FfcxModel.Generated.Options
+
+open Ffcx Ffcx.Naming Ffcx.Cli
+
+namespace NamesDriver
+
+def ofStr (s : Str) : Sexp := .list (.atom "u" :: s.map (fun c => Sexp.ofNat c.toNat))
+
+def asStr : Sexp → Except String Str
+  | .atom s => .ok s.toList
+  | .list (.atom "u" :: cs) => cs.mapM fun c => do
+      let n ← c.asNat
+      pure (Char.ofNat n)
+  | _ => .error "expected string"
+
+def asNatList (s : Sexp) : Except String (List Nat) := do
+  (← s.asList).mapM Sexp.asNat
+
+def asScalar : Sexp → Except String Scalar
+  | .list [.atom "none"] => .ok .none
+  | .list [.atom "bool", b] => do pure (.bool (← b.asBool))
+  | .list [.atom "int", i] => do pure (.int (← i.asInt))
+  | .list [.atom "float", .atom "nan"] => .ok (.float .nan)
+  | .list [.atom "float", .atom "inf", n] => do pure (.float (.inf (← n.asBool)))
+  | .list [.atom "float", .atom "fin", n, ds, e] => do
+      pure (.float (.fin (← n.asBool) (← asNatList ds) (← e.asInt)))
+  | .list [.atom "str", s] => do pure (.str (← asStr s))
+  | .list [.atom "raw", s] => do pure (.raw (← asStr s))
+  | s => .error s!"bad scalar {s}"
+
+def asItems (xs : List Sexp) : Except String (List (Str × Scalar)) :=
+  xs.mapM fun x => match x with
+    | .list [k, v] => do pure (← asStr k, ← asScalar v)
+    | _ => .error "bad item"
+
+def asSItems (xs : List Sexp) : Except String (Dict String Scalar) :=
+  xs.mapM fun x => match x with
+    | .list [k, v] => do pure (String.ofList (← asStr k), ← asScalar v)
+    | _ => .error "bad item"
+
+/-- Points are either modelled arrays or an opaque repr text. -/
+inductive Pts where
+  | arr (p : Points)
+  | raw (r : Str)
+
+def asDy : Sexp → Except String Dy
+  | .list [n, k] => do pure ⟨← n.asInt, ← k.asNat⟩
+  | _ => .error "bad dyadic"
+
+def asPts : Sexp → Except String Pts
+  | .list (.atom "points" :: f32 :: rows) => do
+      let rs ← rows.mapM fun r => do (← r.asList).mapM asDy
+      pure (.arr ⟨rs, ← f32.asBool⟩)
+  | .list [.atom "repr", s] => do pure (.raw (← asStr s))
+  | _ => .error "bad points"
+
+/-- `repr(points)`; unsupported arrays print as a marker that can never match. -/
+def reprPts : Pts → Str
+  | .arr p => (npRepr p).getD (cs! "<unsupported>")
+  | .raw r => r
+
+def asObjs : Sexp → Except String (Objs Pts)
+  | .list (.atom "forms" :: sigs) => do pure (.forms (← sigs.mapM asStr))
+  | .list (.atom "exprs" :: es) => do
+      let l ← es.mapM fun e => match e with
+        | .list [s, p] => do pure (← asStr s, ← asPts p)
+        | _ => .error "bad expr"
+      pure (.exprs l)
+  | _ => .error "bad objs"
+
+def asEnv : Sexp → Except String Env
+  | .list [.atom "env", v, h] => do pure ⟨← asStr v, ← asStr h⟩
+  | _ => .error "bad env"
+
+def asComp : List Sexp → Except String CompileArgs
+  | [args, dbg, cf, so] => do
+      pure ⟨← (← args.asList).mapM asStr, ← asScalar dbg, ← asScalar cf, ← asScalar so⟩
+  | _ => .error "bad compile args"
+
+def ofDict (d : Dict String Scalar) : Sexp :=
+  .list (d.map fun kv => .list [ofStr kv.1.toList, ofStr (reprScalar kv.2)])
+
+def generatedActions : List Action := Ffcx.Generated.Options.actions
+def generatedDefaults : Dict String Scalar := Ffcx.Generated.Options.defaultDict
 
 def dispatch (req : Sexp) : Except String Sexp :=
   match req with
-  | .list (.atom cmd :: _args) =>
-    match cmd with
-    | "ping" => .ok (.atom "pong")
-    | _ => .error s!"unknown command {cmd}"
+  | .list (.atom cmd :: args) =>
+    match cmd, args with
+    | "ping", _ => .ok (.atom "pong")
+    | "reprscalar", [v] => do pure (ofStr (reprScalar (← asScalar v)))
+    | "strscalar", [v] => do pure (ofStr (strScalar (← asScalar v)))
+    | "tuple", parts => do pure (ofStr (tupleOf (← parts.mapM asStr)))
+    | "list", parts => do pure (ofStr (listOf (← parts.mapM asStr)))
+    | "optsig", items => do pure (ofStr (optionSignature (← asItems items)))
+    | "compsig", c => do pure (ofStr (compilationSignature (← asComp c)))
+    | "nprepr", [p] => do
+        match ← asPts p with
+        | .arr a => match npRepr a with
+          | some s => pure (ofStr s)
+          | none => pure (.list [.atom "unsupported"])
+        | .raw r => pure (ofStr r)
+    | "encode", [env, objs, tag] => do
+        match encode reprPts (← asEnv env) (← asObjs objs) (← asStr tag) with
+        | some s => pure (ofStr s)
+        | none => pure (.list [.atom "unbound"])
+    | "request", [env, objs, .list (.atom "opts" :: items), .list (.atom "comp" :: c)] => do
+        let r : Request Pts := ⟨← asObjs objs, ← asItems items, ← asComp c⟩
+        match encodeRequest reprPts (← asEnv env) r with
+        | some s => pure (ofStr s)
+        | none => pure (.list [.atom "unbound"])
+    | "formtag", [p, i] => do pure (ofStr (formTag (← asStr p) (← i.asInt)))
+    | "integraltag", [p, t, i, sub] => do
+        pure (ofStr (integralTag (← asStr p) (← asStr t) (← i.asInt) (← (← sub.asList).mapM asScalar)))
+    | "alias", [k, p, n] => do pure (ofStr (aliasName (← asStr k) (← asStr p) (← asStr n)))
+    | "factory", [n, c] => do pure (ofStr ((← asStr n) ++ '_' :: (← asStr c)))
+    | "validident", [s] => do pure (Sexp.ofBool (validIdent (← asStr s)))
+    | "merge", [d, u, p, q] => do
+        let prio ← match q with
+          | .list [.atom "none"] => pure none
+          | .list [.atom "some", .list items] => do pure (some (← asSItems items))
+          | _ => .error "bad priority"
+        pure (ofDict (getOptions (← asSItems (← d.asList)) (← asSItems (← u.asList))
+          (← asSItems (← p.asList)) prio))
+    | "cli", given => do pure (ofDict (priorityOptions generatedActions (← asSItems given)))
+    | "namespace", given => do pure (ofDict (parseNamespace generatedActions (← asSItems given)))
+    | "mainopts", [u, p, g] => do
+        pure (ofDict (mainOptions generatedActions generatedDefaults (← asSItems (← u.asList))
+          (← asSItems (← p.asList)) (← asSItems (← g.asList))))
+    | "sanitise", [s] => do pure (ofStr (sanitiseFilename (← asStr s)))
+    | "formatcode", blocks => do
+        let bs ← blocks.mapM fun b => do
+          (← b.asList).mapM fun t => do (← t.asList).mapM asStr
+        pure (.list ((formatCode bs).map ofStr))
+    | _, _ => .error s!"unknown command or bad arity: {cmd}"
   | _ => .error "request must be a list"
 
-def main : IO Unit := Driver.run dispatch
+end NamesDriver
+
+def main : IO Unit := Driver.run NamesDriver.dispatch
